@@ -43,6 +43,40 @@ impl Tier {
     }
 }
 
+/// Enumerations are exhaustive within a scenario as long as the trace is of ordinary length.
+/// A scenario whose trace is enormous (a megabyte stored in 7-byte blocks has hundreds of
+/// thousands of operations) keeps a seeded sample of `cap` plans instead, in order; returns
+/// true if it had to.
+pub fn cap_plans<T>(plans: &mut Vec<T>, cap: usize, seed: u64) -> bool {
+    if plans.len() <= cap {
+        return false;
+    }
+    let n = plans.len();
+    let mut r = crate::rng::Rng::new(seed ^ 0xCA9);
+    let mut keep: std::collections::BTreeSet<usize> = std::collections::BTreeSet::new();
+    // always the first and last few (set-up and closing operations), the rest sampled
+    for i in 0..(cap / 4).min(100).min(n) {
+        keep.insert(i);
+        keep.insert(n - 1 - i);
+    }
+    while keep.len() < cap {
+        keep.insert(r.usize(n));
+    }
+    let mut i = 0;
+    plans.retain(|_| {
+        let k = keep.contains(&i);
+        i += 1;
+        k
+    });
+    true
+}
+
+/// How many plans an enumeration may hold when one execution costs about `unit_ops`
+/// storage operations: the whole scenario stays within some tens of millions of operations.
+pub fn plan_cap(unit_ops: usize, max: usize) -> usize {
+    (20_000_000 / unit_ops.max(1)).clamp(40, max)
+}
+
 pub struct CheckDef {
     pub info: CheckInfo,
     /// number of seeded runs per tier
